@@ -474,6 +474,7 @@ def argkind_case(ctx, agg, kind, label, els, coords, charges, weights, fn, gkind
             a.setflags(write=False)
 
     def call():
+        obj, grid, aux = H["obj"], H["grid"], H["aux"]
         if fn == "aso":
             return gb.aso(obj, grid, weighted=weighted)
         if fn == "aeif":
@@ -484,6 +485,7 @@ def argkind_case(ctx, agg, kind, label, els, coords, charges, weights, fn, gkind
             return gb.nearest_atom_index(grid, obj, max_dist=MD_SEQ[0])
         return gb.prune(grid, obj, max_dist=MD_SEQ[0], eps=0.5)
 
+    H = {"obj": obj, "grid": grid, "aux": aux}
     snaps = {"grid": snapshot(grid), **{k: snapshot(a) for k, a in aux.items()}}
     objs = {"grid": grid, **aux}
     sym = det = None
@@ -502,13 +504,31 @@ def argkind_case(ctx, agg, kind, label, els, coords, charges, weights, fn, gkind
             if det is not None:
                 sym = "wrong-value"
             else:
+                # the result belongs to the caller: it is changed in place, then the same call is made again with the same
+                # objects, and an equal call with freshly built equal objects
+                from mc.props.c19 import owned_verdict, scribble
+
+                snap = got.copy() if isinstance(got, np.ndarray) else got
+                scribble(got)
                 try:
                     again = call()
                 except Exception as e:
                     sym, det = f"repeated-call-raised-{type(e).__name__}", f"the second identical call raised {type(e).__name__}: {e}"
                 else:
-                    if not same_result(got, again):
-                        sym, det = "repeated-call-differs", "the second identical call on the same caller objects returned a different result"
+                    sym, det = owned_verdict(got, snap, again, "the same call on the same caller objects")
+                if not sym:
+                    scribble(again)
+                    obj2, _ = build_object(kind, els, coords, charges, weights)
+                    grid2, _ = make_grid(gkind, seed)
+                    aux2 = {k: np.array(a) for k, a in aux.items()}
+                    H.update(obj=obj2, grid=grid2, aux=aux2)  # call() reads these
+                    try:
+                        third = call()
+                    except Exception as e:
+                        sym, det = f"repeated-call-raised-{type(e).__name__}", f"an equal call on equal, freshly built objects raised {type(e).__name__}: {e}"
+                    else:
+                        sym, det = owned_verdict(got, snap, third, "an equal call on equal, freshly built objects")
+                got = snap
     if sym:
         case = {"kind": "argkind", "op": op, "symptom": sym, "obj": kind, "label": label, "els": list(els), "coords": coords.tolist(), "charges": np.asarray(charges).tolist(), "weights": np.asarray(weights).tolist(),
                 "fn": fn, "gkind": gkind, "weighted": weighted, "seed": seed, "aux_readonly": aux_readonly}  # fmt: skip
@@ -681,12 +701,17 @@ def kernel_history_case(ctx, agg, impl, src, name, A, B, dt, la, lb):
         ("first-input-mutated-in-place", lambda: a.__setitem__((Ellipsis, 0), a[..., 0] + one), "a[..., 0] += 1"),
         ("second-input-mutated-in-place", lambda: b.__setitem__((Ellipsis, 1), b[..., 1] - 2 * one), "b[..., 1] -= 2"),
         ("previous-result-mutated-in-place", lambda: r0.__setitem__(Ellipsis, -1.0), "r[...] = -1"),
+        ("equal-inputs-in-new-arrays", None, "a = a.copy(); b = b.copy()"),
     )
     lines = []
     for edit, mutate, line in steps:
         op = f"kernel[{impl}]:{name}:history[{edit}]"
         agg.tick(op, **attrs)
-        mutate()
+        if mutate is None:
+            a = a.copy()
+            b = b.copy()
+        else:
+            mutate()
         lines.append(line)
         ctx.count(evaluations=1, traces=1, transitions=2)
         ref = ref_dist(a, b, squared)
@@ -696,7 +721,9 @@ def kernel_history_case(ctx, agg, impl, src, name, A, B, dt, la, lb):
         except Exception as e:
             sym, what = f"raised-{type(e).__name__}", f"raised {type(e).__name__}: {e}"
         else:
-            if not agrees(got, ref):
+            if isinstance(got, np.ndarray) and isinstance(r0, np.ndarray) and impl == "so" and np.shares_memory(got, r0):
+                sym, what = "result-not-caller-owned", "returned an array that shares memory with an earlier result"
+            elif not agrees(got, ref):
                 stale = any(agrees(got, r) for r in refs) or (isinstance(got, np.ndarray) and got.size and bool(np.all(got == -1.0)))
                 sym = "stale-result" if stale else "wrong-value"
                 what = f"after {'; '.join(lines)} the second call returned {np.asarray(got).ravel()[:4].tolist() if got is not None else None}..., the definition on the current arrays gives {ref.ravel()[:4].tolist()}..."
